@@ -3,7 +3,10 @@
   1. a recorded parser trace is accepted by CursorTrace; the same trace with one corrupted column, one corrupted
      index, the last Adv event removed (an Adv removed in the middle is a legal coarser grain: Consume(k) takes any k), one Warn location outside the text is rejected at that event;
   2. Group's determinism invariant fails under GroupDefect.cfg (iteration order leaking into the artefact);
-  3. JsString's round trip fails for the pre-fix encoder form of NUL (`\\0` before a digit)."""
+  3. an output trace of the stylesheet compiler is accepted by OutMapTrace; with one generated column shifted, one
+     source position moved into a comment, one entry removed, two entries swapped, a name dropped from a rewritten
+     token or an entry left over at the end it is rejected;
+  4. JsString's round trip fails for the pre-fix encoder form of NUL (`\\0` before a digit)."""
 import copy
 import json
 import os
@@ -11,6 +14,8 @@ import sys
 
 sys.path.insert(0, os.path.dirname(os.path.abspath(__file__)))
 import cursor  # noqa: E402
+import cssrun  # noqa: E402
+import outmap  # noqa: E402
 import vlib  # noqa: E402
 
 
@@ -36,6 +41,30 @@ def main():
     res = vlib.tlc("Group", cfg="GroupDefect", workers=2, timeout=300)
     print("GroupDefect.cfg: TLC %s" % ("reports the violation: " + (res.violated or "")[:80] if not res.ok else "found nothing"))
     ok &= (not res.ok)
+    css = ".a  .b{width:calc(1rpx + /* c */ 2px)}\n@media (min-width:75rpx){ :host{color:red} }"
+    r = vlib.run_vh("css", [{"id": 0, "src": css, "opts": {"rpx_ratio": 750, "class_prefix": "p", "convert_host": True}}])[0]
+    st = outmap.src_starts(r["itok"])
+    ev = outmap.events(r["ntok"], r["nmap"])
+    # demand an entry for every token and a name for the rewritten ones, as the reference transducer would
+    for e, t in zip([e for e in ev if e[0] == 3], r["ntok"]):
+        e[4] = 0
+        e[5] = 1 if (t[6].endswith("vw") or t[6].startswith("p--")) else 0
+    acc, rej, _ = outmap.validate([(st, ev)], tag="selftest")
+    print("genuine output trace: accepted=%d rejected=%d" % (acc, len(rej)))
+    ok &= (acc == 1 and not rej)
+    ents = [i for i, e in enumerate(ev) if e[0] == 2]
+    named = [i for i in ents if ev[i][4] == 1]
+    muts = []
+    m = copy.deepcopy(ev); m[ents[5]][2] += 1; muts.append(("generated column + 1", m))
+    m = copy.deepcopy(ev); m[ents[5]][3] = 27; muts.append(("source position inside a comment", m))
+    m = copy.deepcopy(ev); del m[ents[4]]; muts.append(("entry removed", m))
+    m = copy.deepcopy(ev); m[ents[3]], m[ents[4]] = m[ents[4]], m[ents[3]]; muts.append(("two entries swapped", m))
+    m = copy.deepcopy(ev); m[named[0]][4] = 0; muts.append(("name dropped", m))
+    m = copy.deepcopy(ev); m.insert(len(m) - 1, [2, 0, 999, 0, 0]); muts.append(("entry beyond the end", m))
+    for name, m in muts:
+        acc, rej, _ = outmap.validate([(st, m)], tag="selftest")
+        print("corrupted output trace (%s): accepted=%d rejected=%s" % (name, acc, [x["event_no"] for x in rej]))
+        ok &= (acc == 0 and len(rej) == 1)
     print("SELFTEST", "OK" if ok else "FAILED")
     return 0 if ok else 1
 
